@@ -315,6 +315,47 @@ def _mutate(res, how):
         q.sort(key=_sortkey)
 
 
+_REENTRANT = {}
+
+
+def _push_is_reentrant(heapdict):
+  """Whether push() may be entered from inside an item comparison of the
+  same container -- probed once per process on a scratch container, in a
+  helper thread so that a self-deadlock is observed instead of suffered."""
+  key = core.repo_root()
+  if key not in _REENTRANT:
+    import threading  # pylint: disable=g-import-not-at-top
+    done = []
+
+    def run():
+      try:
+        h = heapdict.HeapDict(2)
+        armed = [True]
+
+        class P:
+
+          def __init__(self, v):
+            self.v = v
+
+          def __lt__(self, other):
+            if armed[0]:
+              armed[0] = False
+              h.push('other', P(0))
+            return self.v < other.v
+
+        for v in (1, 2, 3):
+          h.push('k', P(v))
+      except Exception:  # pylint: disable=broad-except
+        pass        # raising is not deadlocking; the run itself will report
+      done.append(True)
+
+    t = threading.Thread(target=run, daemon=True)
+    t.start()
+    t.join(20.0)
+    _REENTRANT[key] = bool(done)
+  return _REENTRANT[key]
+
+
 def execute(desc):
   heapdict, = core.fresh_modules('heapdict')
   Item.countdown = None       # nothing armed by an earlier run survives
@@ -322,7 +363,24 @@ def execute(desc):
   Item.nested_fired = False
   ks = desc['ks']
   clients = desc['clients']
-  heaps = [heapdict.HeapDict(k) for k in ks]
+  try:
+    heaps = [heapdict.HeapDict(k) for k in ks]
+  except Exception as e:  # pylint: disable=broad-except
+    stats = {'ops': 0, 'compared': 0, 'faults': {}, 'probes': {},
+             'states': [], 'transitions': [], 'skipped': {}}
+    if any(isinstance(k, float) or k == 0 for k in ks):
+      # `size: int`: an integral float (or an empty queue) may be refused;
+      # which capacities are ACCEPTED is not what C14 is about
+      stats['skipped']['capacity_refused_' + type(e).__name__] = 1
+      return {'violation': None, 'digest': core.digest_of(['refused']),
+              'signature': core.digest_of(['refused']), 'nontrivial': False,
+              'stats': stats}
+    return {'violation': core.violation(
+        PROPERTY, 'H3', None, 'construct',
+        'HeapDict(%r) raised %s' % (ks, type(e).__name__)),
+            'digest': core.digest_of(['refused']),
+            'signature': core.digest_of(['refused']), 'nontrivial': False,
+            'stats': stats}
   models = [{} for _ in ks]
   if len(ks) > 1:
     stats_multi = True
@@ -394,6 +452,13 @@ def execute(desc):
       if k == 0:
         probe('k0_push')
       nest = op.get('nest')
+      if nest and not _push_is_reentrant(heapdict):
+        # a container that serialises pushes behind a plain lock cannot be
+        # pushed into from inside its own comparison (it would wait for
+        # itself): C14 does not promise re-entrancy, the nested push is
+        # dropped from the history rather than deadlocking the run
+        nest = None
+        probe('nested_push_skipped_not_reentrant')
       if nest:
         ncl = clients[nest['c']]
         nkey = _decode_key(ncl['key'])
